@@ -15,6 +15,12 @@ pub use metadata::*;
 pub use predicate::{PredicateLayout, PredicateVer, PredicateWrapper};
 pub use statement::{StatementVer, StatementWrapper};
 
+/// Verification hooks: re-export of the private envelope codec.
+#[cfg(in_toto_rs_verif)]
+pub mod verif_hooks {
+    pub use super::envelope::DSSEVersion;
+}
+
 #[cfg(test)]
 mod test {
     use once_cell::sync::Lazy;
